@@ -16,6 +16,7 @@
 //! * A `none` CtOption / ConstCtOption carries an unspecified value: never inspected.
 
 mod extra;
+pub mod checked_forms;
 mod gens;
 
 use crypto_bigint::{
